@@ -3,7 +3,7 @@ import ast
 
 from sa import astq
 from sa.astq import norm_text
-from sa.idioms import guarded
+from sa.idioms import guarded, reach_under, member_test
 from sa.raises import Escapes
 from sa.project import dotted, walk_local, AnalysisError
 from rules.common import mutator_nodes
@@ -404,10 +404,22 @@ def r5(run, ctx):
     av = ctx.fn('circus.commands.addwatcher:AddWatcher.validate')
     run.need('R5', ctx.nodes_calling(av, [vo.key]), 'validate_option call in AddWatcher.validate', av,
              'add no longer validates its options')
-    # the valid-key gate
-    src = norm_text(vo.node)
-    run.check('R5', 'key not in valid_keys and (not _valid_prefix())' in src and
-              "raise MessageError('unknown key %r' % key)" in src,
+    # the valid-key gate: a key that is in no table never leaves validate_option normally
+    cfg = ctx.cfg(vo)
+
+    def unknown_key(e):
+        m = member_test(e, 'key', 'valid_keys')
+        if m is not None:
+            return not m
+        if isinstance(e, ast.Call) and dotted(e.func) == '_valid_prefix':
+            return False
+        if isinstance(e, ast.Call) and dotted(e.func) == 'any' and 'valid_prefixes' in norm_text(e):
+            return False
+        return None
+    r = reach_under(cfg, cfg.entry, unknown_key)
+    refusals = [n for n in cfg.nodes if n.id in r and n.kind == 'stmt' and
+                isinstance(n.ast, ast.Raise) and 'MessageError' in norm_text(n.ast)]
+    run.check('R5', cfg.exit.id not in r and bool(refusals),
               'unknown option keys are refused', vo, vo.node)
 
 
